@@ -82,3 +82,30 @@ func After(d Duration) <-chan Time {
 }
 
 func Tick(d Duration) <-chan Time { return After(d) }
+
+// ParseInLocation and friends: pure.
+func ParseInLocation(layout, value string, loc *Location) (Time, error) {
+	return time.ParseInLocation(layout, value, loc)
+}
+
+// AfterFunc runs f at once after advancing simulated time by d (the system
+// under test has no timers today; this keeps a changed tree compiling and
+// deterministic).
+func AfterFunc(d Duration, f func()) *Timer {
+	Sleep(d)
+	f()
+	t := time.NewTimer(time.Hour)
+	t.Stop()
+	return t
+}
+
+// NewTimer returns a timer that has already fired, after advancing simulated time by d.
+func NewTimer(d Duration) *Timer {
+	Sleep(d)
+	return time.NewTimer(0)
+}
+
+// NewTicker is not modelled: a ticker of the real clock would break replay.
+func NewTicker(d Duration) *Ticker {
+	panic("simtime: NewTicker is not modelled by the simulator")
+}
